@@ -40,14 +40,40 @@ def build_driver():
     return os.path.join(tdir, "release", "replay"), None
 
 
+_MEMO = {}
+
+
 def search(unit, tag, tier):
+    """Witness search of the replay crate for (unit, obligation tag).  The crate chooses its sweep from the unit, the
+    property prefix of the tag and a few words in it (replay/src/main.rs `search`, c12.rs `search`); searches that would
+    run the same sweep are run once per check."""
+    if not unit.startswith(("c02_", "c04_", "c05_", "c06_", "c07_", "c16_", "c17_")):
+        return _search(unit, tag, tier)      # (the other sweeps look at further words of the tag)
+    key = (unit, tag[:3], tier)
+    if key not in _MEMO:
+        _MEMO[key] = _search(unit, tag, tier)
+    return _MEMO[key]
+
+
+def _search(unit, tag, tier):
     exe, err = build_driver()
     if exe is None:
         return None, err
+    casefile = os.path.join(ROOT, "build", "case_%d.json" % os.getpid())
+    os.makedirs(os.path.dirname(casefile), exist_ok=True)
+    if os.path.exists(casefile):
+        os.remove(casefile)
     try:
-        p = subprocess.run([exe, unit, tag, tier], capture_output=True, text=True, timeout=900)
+        p = subprocess.run([exe, unit, tag, tier], capture_output=True, text=True, timeout=900, env=dict(os.environ, REPLAY_CASEFILE=casefile))
     except subprocess.TimeoutExpired:
         return None, "witness search timed out"
+    if p.returncode < 0 or "has overflowed its stack" in p.stderr:
+        # the sweep died (a stack overflow or another abort in the code under test kills the process it happens in): the
+        # drivers note the case they are about to run, so the case that killed it is known; it is confirmed on its own
+        w = died_on_case(exe, casefile, p)
+        if w is not None:
+            return w, None
+        return None, "the sweep process died (%s) and the case it died on could not be confirmed: %s" % (p.returncode, p.stderr[-300:].strip())
     for ln in p.stdout.splitlines():
         if ln.startswith("WITNESS "):
             try:
@@ -55,6 +81,23 @@ def search(unit, tag, tier):
             except Exception:
                 return {"raw": ln}, None
     return None, (p.stdout[-300:] + p.stderr[-300:]).strip() or "driver found no failing input within its bounds"
+
+
+def died_on_case(exe, casefile, p):
+    try:
+        case = json.load(open(casefile))
+    except Exception:
+        return None
+    finally:
+        if os.path.exists(casefile):
+            os.remove(casefile)
+    why = [l for l in p.stderr.splitlines() if "overflow" in l or "fatal" in l or "abort" in l.lower()]
+    q = subprocess.run([exe, "--witness", json.dumps(case)], capture_output=True, text=True, timeout=300)
+    if q.returncode < 0 or "has overflowed its stack" in q.stderr or "STILL-FAILS" in q.stdout:
+        case["observed"] = "the process running this case died (%s)" % ("; ".join(why)[:200] or "signal %d" % -p.returncode)
+        case["expected"] = "a result"
+        return case
+    return None
 
 
 def make_replay(prop, f, tier):
@@ -94,4 +137,7 @@ def rerun(path):
         return 2
     p = subprocess.run([exe, "--witness", json.dumps(doc["witness"])], capture_output=True, text=True, timeout=300)
     print(p.stdout, end="")
+    if p.returncode < 0 or "has overflowed its stack" in p.stderr:
+        print("STILL-FAILS observed=the process running this case died (%s)" % (p.stderr.strip().splitlines() or ["signal %d" % -p.returncode])[-1])
+        return 1
     return 1 if "STILL-FAILS" in p.stdout else 0
